@@ -29,7 +29,7 @@ for p in props:
             "technique": c["technique"],
         })
     else:
-        na.append({"property_id": pid, "reason": "check under construction (framework being built; see DESIGN.md)"})
+        na.append({"property_id": pid, "reason": "not claimed yet: its check is still under construction in this round (planned in DESIGN.md section 5); nothing is asserted about it"})
 m = {
     "version": 1,
     "setup_cmd": "./vcheck setup",
